@@ -98,4 +98,30 @@ CHECKS = {
              "holder, cancel+release in both orders on one P; distinct_nontrivial = distinct round configurations",
         assumptions=["shadow table correctness", "30 s is far above the time a granted waiter needs to return on this machine"],
     ),
+    "C19": dict(
+        claim="Exploration at the HTTP boundary: the real api.NewRouter(..., readOnly=true) serves a request corpus built from the routes chi.Walk reports (both API versions) x HTTP methods (incl. lower-case and unknown verbs) x path variants x write payloads (transactions, scripts, metadata, bulk) x method-override headers / query parameters; a monitoring backend records every call; any non-dry-run CreateTransaction / RevertTransaction / SaveMeta / DeleteMetadata is a violation. The same requests on a readOnly=false router must reach all four write methods through v1, v2 and bulk (otherwise INCONCLUSIVE). The grid routes x methods x matching bodies is enumerated completely; the rest is sampled.",
+        note="Trusted: the monitoring backend (records before answering). Requests enter at chi's ServeHTTP (net/http's own request-line parsing is outside). A dry-run call reaching the backend is counted but is not a violation of the statement (nothing is created).",
+        technique="HTTP-boundary monitor with recording backend, exhaustive route x method grid + randomized request compositions, control run for non-vacuity",
+        engine="apimon", level="exploration",
+        runs=[dict(mode="", shards={"quick": 2, "thorough": 16}, timeout=T)],
+        thresholds={"quick": {"evaluations": 8000, "grid_requests": 1000, "control_writes_reached": 300, "control_reached_CreateTransaction/bulk": 1, "control_reached_DeleteMetadata/v1": 1, "control_reached_RevertTransaction/v2": 1, "control_reached_SaveMeta/bulk": 1},
+                    "thorough": {"evaluations": 400000, "control_writes_reached": 15000}},
+        rule="requests = registered route pattern (42 (method, pattern) pairs from chi.Walk) with path parameters filled, x method, x path variant (trailing slash, "
+             "doubled slash, escaped segment, other case, dot-dot), x body, x query (dryRun, preview, force, _method ...), x headers (X-HTTP-Method-Override, "
+             "Idempotency-Key, Content-Type); distinct_nontrivial = distinct requests that execute a write when the router is NOT read-only",
+        assumptions=["chi.Walk reports every registered route", "monitoring backend"],
+        exhaustive_counter="grid_requests", exhaustive_note="grid registered routes x 14 methods x matching bodies enumerated completely (shard 0)",
+    ),
+    "C18": dict(
+        claim="Exploration at the HTTP boundary: generated bulks (1-12 elements over the four actions and unknown actions, per-element idempotency keys, both values of continueOnFailure) are posted to the real /v2/{ledger}/_bulk handler on a monitoring backend whose write methods succeed or fail as scripted per element (insufficient funds, conflict, already reverted, not found, internal); the recorded backend calls and the HTTP response are checked against the statement: calls = processed known-action elements in order with their own ik, one result per processed element at its position, nothing executed after the first failure unless continueOnFailure, HTTP 400 iff some processed element failed.",
+        note="Trusted: the monitoring backend; each element carries its index in its payload so a backend call is attributable. Element data is well-formed (malformed payloads are outside the stated quantifier). Failure patterns are scripted, not produced by a real engine.",
+        technique="HTTP-boundary monitor: recorded backend calls vs response, generated bulks with scripted per-element outcomes",
+        engine="apimon", level="exploration",
+        runs=[dict(mode="", shards={"quick": 2, "thorough": 16}, timeout=T)],
+        thresholds={"quick": {"evaluations": 2000, "action_UNKNOWN_fail": 200, "action_CREATE_TRANSACTION_fail": 150, "action_ADD_METADATA_fail": 150, "action_REVERT_TRANSACTION_fail": 150, "action_DELETE_METADATA_fail": 150,
+                              "action_CREATE_TRANSACTION_ok": 500, "action_DELETE_METADATA_ok": 500, "continue_on_failure": 500, "first_failure_at_0": 100, "first_failure_at_3": 30, "first_failure_at_5": 10},
+                    "thorough": {"evaluations": 120000}},
+        rule="random bulks; failure probability per element 0/10/30/60 %, unknown-action probability 0/10/30 %; distinct_nontrivial = distinct (body, continueOnFailure)",
+        assumptions=["monitoring backend", "scripted failures stand in for engine failures"],
+    ),
 }
